@@ -238,6 +238,11 @@ def r3(ctx):
                 pol = p_
             elif b == N.b(parse_expr(f"{chosen[0]} is None")):
                 pol = not p_
+            elif U(t) == chosen[0] or (isinstance(t, ast.UnaryOp) and isinstance(t.op, ast.Not) and U(t.operand) == chosen[0]):
+                # recognised wrong: the sample in progress is tested by truthiness - sample id 0 is a sample
+                ctx.bad("R3", f"{f.site()}::in-progress-test", f"the sample in progress is tested by truthiness (`{U(t)}`): sample id 0 counts as `no sample in progress`, "
+                        f"so while sample 0 is being completed its own plates are refused and another sample is opened")
+                return
             else:
                 raise AnalysisError(f"{f.site()}: arm test `{U(t)}` is not a None test of `{chosen[0]}`")
         if pol is True:
@@ -372,6 +377,7 @@ def _rep(a, b):
 
 
 WITNESSES = [
+    ("sample in progress tested by truthiness", "batchie.policies.k_per_sample", _rep("        if sample_chosen is not None:", "        if sample_chosen:"), ["R3"]),
     ("insufficient threshold <=", "batchie.policies.k_per_sample", _rep("            if v < self.k:\n                sample_ids_with_insufficient_plates.add(sample_id)", "            if v <= self.k:\n                sample_ids_with_insufficient_plates.add(sample_id)"), ["R3"]),
     ("in-progress arm appends every plate", "batchie.policies.k_per_sample", _rep("                if sample_id == sample_chosen:\n                    result.append(plate)", "                result.append(plate)"), ["R3"]),
     ("multi-sample guard removed", "batchie.policies.k_per_sample",
